@@ -9,7 +9,10 @@ From Dastard Require Import Common.ZX Pipeline.Stream C01.Model.
 Record sstate := mkss {
   s_npre : Z; s_nsamp : Z; s_ts : tstate;   (* settings in force (as requested through the control operations) *)
   s_G : list Z;                             (* ground truth: every sample delivered so far *)
-  s_S : Z;                                  (* frame at which the current epoch started *)
+  s_H : Z;                                  (* history bound: a channel keeps at least one record length of the data it
+                                               has seen, so samples from frame s_H on are still available (C02) *)
+  s_C : Z;                                  (* first candidate frame of the current epoch (C02) *)
+  s_acc : Z;                                (* candidates below this frame were decidable, and judged, before (C02) *)
   s_epoch : list Z;                         (* trigger frames emitted in the current epoch, in emission order *)
   s_all : list Z }.                         (* every trigger frame emitted so far *)
 
@@ -19,7 +22,8 @@ Record binfo := mkbi {
   bi_F0 : Z;                  (* frame number of G[0] *)
   bi_G : list Z;              (* ground truth up to and including this block *)
   bi_seg : segment;           (* the block *)
-  bi_S : Z;                   (* first frame of the epoch the block belongs to *)
+  bi_C : Z;                   (* first candidate frame of the epoch the block belongs to *)
+  bi_lo : Z;                  (* candidates below this frame were judged with earlier blocks *)
   bi_prev : list Z;           (* triggers of the same epoch emitted before this block *)
   bi_all_prev : list Z;       (* all triggers emitted before this block *)
   bi_recs : list record }.    (* records published for this block *)
@@ -27,12 +31,26 @@ Record binfo := mkbi {
 Definition bi_trigs (b : binfo) : list Z := map r_frame (bi_recs b).
 Definition bi_end (b : binfo) : Z := bi_F0 b + zlen (bi_G b).      (* frame after the last delivered sample *)
 
+(* a fresh start: nothing delivered; the first candidate is the first sample with npre samples of history *)
 Definition init_sstate (npre nsamp : Z) (ts : tstate) (F0 : Z) : sstate :=
-  mkss npre nsamp (no_emulti ts) [] F0 [] [].
+  mkss npre nsamp (no_emulti ts) [] F0 (F0 + npre) (F0 + npre) [] [].
 
-(* a control operation closes the epoch *)
+(* a control operation closes the epoch.  The new epoch's candidates continue where the old epoch's decidable ones
+   ended (samples delivered but not yet decidable under the old settings must not be lost by reconfiguring), except
+   that a candidate needs npre samples of history: with only one (old) record length of history guaranteed, the first
+   candidate is not demanded before s_H + npre *)
 Definition new_epoch (F0 : Z) (s : sstate) (npre nsamp : Z) (ts : tstate) : sstate :=
-  mkss npre nsamp ts (s_G s) (F0 + zlen (s_G s)) [] (s_all s).
+  let C := Z.max (s_acc s) (s_H s + npre) in
+  mkss npre nsamp ts (s_G s) (s_H s) C C [] (s_all s).
+
+(* bookkeeping after a block: history bound and decidable end move with the data *)
+Definition after_block_ss (F0 : Z) (s : sstate) (sg : segment) (tr : list Z) : sstate :=
+  let G' := s_G s ++ seg_data sg in
+  let e := F0 + zlen G' in
+  mkss (s_npre s) (s_nsamp s) (s_ts s) G' (Z.max (s_H s) (e - s_nsamp s)) (s_C s)
+       (Z.max (s_acc s) (e - (s_nsamp s - s_npre s))) (s_epoch s ++ tr) (s_all s ++ tr).
+Definition block_info (F0 : Z) (s : sstate) (sg : segment) (recs : list record) : binfo :=
+  mkbi (s_npre s) (s_nsamp s) (s_ts s) F0 (s_G s ++ seg_data sg) sg (s_C s) (s_acc s) (s_epoch s) (s_all s) recs.
 
 (* None: the history is not one this property speaks about — the source was not contiguous, an operation and
    its observation do not fit together, a trigger reconfiguration failed, or the process died (OPanic) *)
@@ -41,11 +59,8 @@ Fixpoint annotate (F0 : Z) (s : sstate) (h : list (op * obs)) : option (list bin
   | [] => Some []
   | (Block sg, ORecs recs _ _) :: rest =>
       if seg_first sg =? F0 + zlen (s_G s) then
-        let G' := s_G s ++ seg_data sg in
-        let b := mkbi (s_npre s) (s_nsamp s) (s_ts s) F0 G' sg (s_S s) (s_epoch s) (s_all s) recs in
-        let tr := map r_frame recs in
-        match annotate F0 (mkss (s_npre s) (s_nsamp s) (s_ts s) G' (s_S s) (s_epoch s ++ tr) (s_all s ++ tr)) rest with
-        | Some bs => Some (b :: bs)
+        match annotate F0 (after_block_ss F0 s sg (map r_frame recs)) rest with
+        | Some bs => Some (block_info F0 s sg recs :: bs)
         | None => None
         end
       else None
